@@ -1,14 +1,16 @@
 SPECIFICATION Spec
-CONSTANTS MaxSize = 7
- MaxSteps = 2
- NV = 3
- MaxAtoms = 3
+CONSTANTS MaxSize = 8
+ MaxSteps = 3
+ NV = 4
+ MaxAtoms = 4
  AtomKinds = {"A", "E", "L", "F", "P", "N", "B", "M"}
+ LongKinds = {"A", "L", "F"}
+ Variants <- VariantsAll
  FinalOccursCheck = TRUE
  AnnotVarCheck = TRUE
+ WithModel = FALSE
 INVARIANT TypedOK
 INVARIANT ContractSane
-INVARIANT ModelMeetsContract
 INVARIANT Record
 POSTCONDITION Post
 CHECK_DEADLOCK FALSE
